@@ -30,6 +30,13 @@ def c20_positions(carrier):
         ("items", {"items": c()}),
         ("tuple items", {"items": [{"type": "string"}, c()]}),
         ("additionalItems", {"items": [{"type": "string"}], "additionalItems": c()}),
+        ("additionalItems (single items)", {"items": {"type": "string"}, "additionalItems": c()}),
+        ("additionalItems (no items)", {"additionalItems": c()}),
+        ("additionalItems (typed array)", {"type": "array", "items": {"type": "string"}, "additionalItems": c()}),
+        ("additionalProperties (with properties)", {"properties": {"a": {"type": "string"}}, "additionalProperties": c()}),
+        ("object class patternProperties", {"type": "object", "title": "Holder", "patternProperties": {"^a": c()}}),
+        ("object class dependencies", {"type": "object", "title": "Holder", "dependencies": {"a": c()}}),
+        ("object class propertyNames", {"type": "object", "title": "Holder", "propertyNames": c()}),
         ("contains", {"contains": c()}),
         ("anyOf", {"anyOf": [{"type": "string"}, c()]}),
         ("oneOf", {"oneOf": [c(), {"type": "string"}]}),
@@ -50,7 +57,7 @@ def c20_unsupported(run):
     from statham.schema.exceptions import FeatureNotImplementedError
     carriers = [{"type": "string"}, {}, {"type": "object", "title": "Carrier", "properties": {"x": {"type": "string"}}},
                 {"type": "array"}, {"type": ["string", "integer"]}, {"type": "integer", "minimum": 0}]
-    acc = Acc(run, "C20-unsupported", f"{len(carriers)} carrier schemas x 21 schema positions x {len(UNSUPPORTED)} unsupported keywords through parse(); "
+    acc = Acc(run, "C20-unsupported", f"{len(carriers)} carrier schemas x 28 schema positions x {len(UNSUPPORTED)} unsupported keywords through parse(); "
               "literal positions (default/const/enum contents, property names) must not trigger; self-/mutual/long reference cycles")
     w = quiet()
     try:
@@ -550,6 +557,23 @@ def c17_variants():
     extra += [cls("A"), cls("A"), cls("B"), cls("A", props={"a": lambda: Property(String(), required=True)}),
               cls("A", props={"a": lambda: Property(String(default="d"))}), cls("A", props={"a": lambda: Property(String(default="d"), required=True)}),
               cls("A", additionalProperties=False), cls("A", description="x"), cls("A", description="y")]
+
+    # models that inherit a class keyword from bases differing only in that keyword (and the flat declarations of the same)
+    def derived(**basekw):
+        def mk():
+            from statham.schema.elements.meta import ObjectMeta, ObjectClassDict
+            bd = ObjectClassDict()
+            bd["value"] = Property(String())
+            Base = ObjectMeta("Base", (Object,), bd, **basekw)
+            return ObjectMeta("Model", (Base,), ObjectClassDict())
+        return mk
+    extra += [derived(), derived(minProperties=1), derived(minProperties=2), derived(required=["value"]), derived(required=["other"]),
+              derived(propertyNames=Element(maxLength=5)), derived(maxProperties=1), derived(const={"value": "x"}), derived(enum=[{}]),
+              derived(dependencies={"value": ["other"]}), derived(patternProperties={"^v": Element(maxLength=1)}), derived(default={"value": "d"}),
+              cls("Model", props={"value": lambda: Property(String())}, minProperties=1), cls("Model", props={"value": lambda: Property(String())})]
+    # Not / composition members one step apart
+    extra += [lambda: Not(String()), lambda: Not(Integer()), lambda: Not(String(minLength=3)), lambda: Not(String(minLength=1)),
+              lambda: Array(Not(String())), lambda: Array(Not(Integer())), lambda: AnyOf(String(), Not(Integer())), lambda: AnyOf(String(), Not(Number()))]
     return base + extra
 
 
@@ -662,7 +686,12 @@ def c18_repr(run):
     acc = Acc(run, "C18-repr", "element pool (levels 0-1 + literal variants), fresh and after validating values; properties stand-alone (unbound) and through their element; eval(repr(x)) == x")
     w = quiet()
     try:
-        makers = [mk for mk in gen.elements(1 if run.tier == "quick" else 3)] + [mk for mk in c17_variants()[len(gen.elements(1)):] if True]
+        from statham.schema.elements import (Array as _A, Element as _E, String as _S, Integer as _I, Nothing as _N, Not as _Not, AnyOf as _Any, AllOf as _All)
+        more = [lambda: _A(_S(), additionalItems=False), lambda: _A(_S(), additionalItems=_I()), lambda: _E(additionalItems=False), lambda: _E(additionalItems=_N()),
+                lambda: _E(items=_S(), additionalItems=_I()), lambda: _A([], additionalItems=_I()), lambda: _A([]), lambda: _A(_N()), lambda: _Not(_N()),
+                lambda: _Any(_S(), _N()), lambda: _All(_N(), _S()), lambda: _E(properties={"a": Property(_N(), required=True)}),
+                lambda: _E(properties={"a": Property(_A(_S(), additionalItems=False))}), lambda: _Any(_A(_S(), additionalItems=False), _I())]
+        makers = [mk for mk in gen.elements(1 if run.tier == "quick" else 3)] + [mk for mk in c17_variants()[len(gen.elements(1)):] if True] + more
         for mk in makers:
             try:
                 e = mk()
@@ -782,7 +811,7 @@ def has_type(x, t, classes):
 
 
 def c19_models():
-    from statham.schema.elements import (AllOf, AnyOf, Array, Boolean, Element, Integer, Not, Null, Number, Object, OneOf, String)
+    from statham.schema.elements import (AllOf, AnyOf, Array, Boolean, Element, Integer, Not, Nothing, Null, Number, Object, OneOf, String)
     from statham.schema.property import Property
 
     class Inner(Object):
@@ -797,6 +826,9 @@ def c19_models():
         "arr_any": (lambda: Array(Element()), [[1, "a"]]), "tuple": (lambda: Array([String(), Integer()]), [["a", 1], ["a", 1, None]]),
         "tuple_closed": (lambda: Array([String(), Integer()], additionalItems=False), [["a", 1], ["a"]]),
         "tuple_add": (lambda: Array([String()], additionalItems=Integer()), [["a", 1, 2]]),
+        "empty_tuple_add": (lambda: Array([], additionalItems=Integer()), [[1, 2], []]), "empty_tuple_add_obj": (lambda: Array([], additionalItems=Inner), [[{"n": 1}]]),
+        "empty_tuple_closed": (lambda: Array([], additionalItems=False), [[]]), "items_nothing": (lambda: Array(Nothing()), [[]]),
+        "single_items_add_ignored": (lambda: Array(String(), additionalItems=Integer()), [["a", "b"]]),
         "obj": (lambda: Inner, [{"n": 1}]), "arr_obj": (lambda: Array(Inner), [[{"n": 1}, {"n": 2.5}]]),
         "anyof": (lambda: AnyOf(String(), Integer()), ["a", 1]), "oneof": (lambda: OneOf(Integer(), String()), ["a", 1]),
         "anyof_obj": (lambda: AnyOf(Inner, Other, String()), [{"n": 1}, {"s": "x"}, "z"]),
@@ -812,7 +844,7 @@ def c19_models():
     return subs, {"Inner": Inner, "Other": Other}
 
 
-C19_PROBES = [3.0, 0.0, 2.5, True, None, "s", [3.0], [1, "a"], [2.0, "x"], {"n": 2.0}, [{"n": 1.0}], [], {}]
+C19_PROBES = [3.0, 0.0, 2.5, True, None, "s", [3.0], [1, "a"], [2.0, "x"], {"n": 2.0}, [{"n": 1.0}], [], {}, ["one", 2], [1.5], [1], [{"n": 1}, {"n": 2}], [None]]
 
 
 def c19_annotations(run):
@@ -902,12 +934,19 @@ C02_DOCS["sameshape.json"] = {"type": "object", "title": "Order", "properties": 
     "shipping": {"type": "object", "title": "ShippingAddress", "properties": {"street": {"type": "string"}}, "required": ["street"]},
     "pets": {"anyOf": [{"type": "object", "title": "Cat", "properties": {"n": {"type": "string"}}}, {"type": "object", "title": "Dog", "properties": {"n": {"type": "string"}}}]},
     "pair": {"type": "array", "items": [{"type": "object", "title": "Left"}, {"type": "object", "title": "Right"}]}}}
-C02_ROOTS = ["simple.json", "nested.json", "refs.json", "noprops.json", "compose.json", "array_root.json", "sameshape.json"]
+C02_DOCS["falsykw.json"] = {"type": "object", "title": "FalsyRoot", "properties": {
+    "empty": {"type": "object", "title": "Empty", "maxProperties": 0},
+    "settings": {"type": "object", "title": "Settings", "default": {}, "properties": {"v": {"type": "integer", "default": 0}}},
+    "zero": {"type": "object", "title": "Zero", "minProperties": 0, "patternProperties": {}, "dependencies": {}},
+    "konst": {"type": "object", "title": "Konst", "const": {}}, "never": {"type": "object", "title": "Never", "enum": []},
+    "closed": {"type": "object", "title": "Closed", "additionalProperties": False, "required": []}}}
+C02_ROOTS = ["simple.json", "nested.json", "refs.json", "noprops.json", "compose.json", "array_root.json", "sameshape.json", "falsykw.json"]
 C02_VALUES = [{}, {"a": "s"}, {"a": "s", "b": 1}, {"a": 1}, {"inner": {"n": 1}}, {"inner": {}}, {"list": [{"k": "s"}, {"k": 1}]}, {"list": [{"k": "s"}]},
               {"untitled": {"z": True}}, {"untitled": {"z": 1}}, {"tuple": [{"k": 1}, "s"]}, {"tuple": [{"k": "s"}]}, {"a": {"x": "s"}}, {"a": {"x": 1}},
               {"c": {"z": 1}}, {"c": {}}, {"d": [{"y": 1}]}, {"d": [{"y": 1, "w": 2}]}, {"k": {"v": "s"}}, {"k": {"v": 1}}, {"k": {}}, {"u": "s", "m": None},
               {"u": {"q": None}, "m": "s"}, {"u": 1}, {"u": "s"}, {"n": 1}, {"n": "s"}, {"a-b": "s"}, {"a-b": 1}, {"class": 1}, {"class": "s"}, {"o": 5}, {"o": "ab"},
               {"o": "abc"}, {"o": 1}, {"x1": 1}, {"x1": "s"}, {"toolongname": 1}, [], [{"v": "123e4567-e89b-12d3-a456-426614174000"}], [{"v": "nope"}], [1], "s", None,
+              {"empty": {}}, {"empty": {"x": 1}}, {"settings": {"v": 2}}, {"zero": {}}, {"konst": {}}, {"konst": {"a": 1}}, {"never": {}}, {"closed": {}}, {"closed": {"q": 1}},
               {"billing": {"street": "a"}, "shipping": {"street": "b"}}, {"billing": {}}, {"shipping": {"street": 1}}, {"pets": {"n": "x"}}, {"pets": {"n": 1}}, {"pair": [{}, {}]}]
 
 
@@ -1134,10 +1173,21 @@ def c03_json(run):
     def check(label, elements, kwargs, tags=None):
         key = label
         acc.case(key)
+        before = [obs(x) for x in elements]
         try:
             doc = serialize_json(*elements, **kwargs)
         except Exception as ex:
             acc.fail(key, f"serialize_json raised {type(ex).__name__}: {ex}", extra={"tags": (tags or []) + (["D26-shape"] if isinstance(elements[0], Nothing) else [])})
+            return
+        if [obs(x) for x in elements] != before:
+            acc.fail(key, "serialize_json changed the element tree it was given")
+            return
+        try:
+            if jkey(serialize_json(*elements, **kwargs)) != jkey(doc):
+                acc.fail(key, "a second serialize_json of the same tree gives a different document")
+                return
+        except Exception as ex:
+            acc.fail(key, f"second serialize_json raised {type(ex).__name__}: {ex}")
             return
         try:
             json.loads(json.dumps(doc))
@@ -1270,6 +1320,22 @@ def c03_extra():
             pass
         return [Array([E1, E2])], {}
 
+    def inherited_required():
+        class Base(Object, required=["id"]):
+            id = Property(Integer())
+
+        class Left(Base):
+            a = Property(String(), required=True)
+
+        class Right(Base):
+            b = Property(String(), required=True)
+        return [Array([Left, Base, Right])], {}
+
+    def shared_required_list():
+        req = ["k"]
+        return [Element(properties={"x": Property(Element(required=req, properties={"p": Property(String(), required=True)})),
+                                    "y": Property(Element(required=req, properties={"q": Property(String(), required=True)}))})], {}
+
     def with_definitions():
         s = String(minLength=1)
         return [Element(properties={"a": Property(String(minLength=1)), "b": Property(Array(String(minLength=1)))})], {"definitions": {"nonempty": s}}
@@ -1278,7 +1344,7 @@ def c03_extra():
         class D(Object):
             k = Property(Integer(), required=True)
         return [Array(D)], {"definitions": {"extra": Integer(minimum=0)}}
-    return {"same-shaped classes": same_shape_classes, "derived same shape": derived_same_shape, "two empty classes": two_empty_classes,
+    return {"inherited required": inherited_required, "shared required list": shared_required_list, "same-shaped classes": same_shape_classes, "derived same shape": derived_same_shape, "two empty classes": two_empty_classes,
             "shared class": shared, "two roots": two_roots, "primary referenced by another root": primary_referenced,
             "caller definitions": with_definitions, "caller definitions + class": definitions_class,
             "empty tuple items closed": lambda: ([Array([], additionalItems=False)], {}), "items nothing": lambda: ([Array(Nothing())], {}),
@@ -1295,6 +1361,9 @@ def c06_roundtrip(run):
         {"type": "object", "title": "Cmd", "description": "A command.\n", "properties": {"a": {"type": "string"}}},
         {"type": "object", "title": "Cmd", "description": "  leading\n    indented block\n", "properties": {"a": {"type": "string"}}},
         {"type": ["string", "null"], "default": None}, {"type": "object", "title": "N", "properties": {"p": {"type": ["integer", "null"], "default": None}}}]
+    docs += [{"properties": {"my-prop": {"type": "string"}}, "required": ["my-prop"]}, {"properties": {"class": {"type": "integer"}, "$id": {}}, "required": ["class", "$id", "other"]},
+             {"properties": {"a-b": {"type": "string"}, "ok": {}}, "required": ["ok", "a-b"]},
+             {"type": "object", "title": "Ren", "properties": {"my-prop": {"type": "string"}}, "required": ["my-prop"]}]
     # annotations (description / default) on every non-object shape too: a description on a typed, multi-typed, composed or untyped
     # schema must survive -- or be dropped -- the same way on every round
     for shape in [{"type": "string"}, {"type": ["string", "integer"]}, {"type": ["string", "null"], "default": None}, {"anyOf": [{"type": "string"}, {"type": "null"}]},
